@@ -34,6 +34,15 @@ def gen_history(rng, nd, ncmd):
                 ('corrupt', 'd1', rng.getrandbits(16)), ('sync',)]
         if rng.random() < 0.5:
             return ops
+    elif sc < 0.5:
+        # a copy-detected file (REP blocks, inherited hashes) is saved by a sync that does not reach its stripes, is removed, and a
+        # NEW file with the same bytes (or the same file under a new time-stamp) takes its positions: the parity never held them
+        n = rng.randint(1, 3); m = rng.randint(1, 3)
+        ops += [('write', 'd1', 'X', n * 1024), ('write', 'd2', 'M', m * 1024 - rng.choice([0, 0, 1, 200])), ('sync',), ('copy', 'd2', 'M', 'd1'),
+                rng.choice([('sync', '-B', str(n)), ('sync', '-B', str(n)), ('sync', '-S', str(n + m + 1))]), ('remove', 'd1', 'M'),
+                rng.choice([('clone', 'd2', 'M', 'd1', 'N'), ('clone', 'd2', 'M', 'd1', 'M')]), ('sync',)]
+        if rng.random() < 0.6:
+            return ops
     names = ['a', 'b', 'c', 'dir/x', 'dir/y', 'e']
     for step in range(ncmd):
         nfs = rng.randint(1, 4) if step else rng.randint(3, 6)
@@ -125,6 +134,10 @@ class Hist:
                 shutil.copy2(p, q)
                 os.utime(q, ns=(st.st_mtime_ns, st.st_mtime_ns))
                 a.note_version(op[3], op[2])
+        elif k == 'clone':
+            # the bytes of (op[1], op[2]) under the name op[4] on disk op[3], with a NEW time-stamp (not a copy for the tool)
+            if os.path.isfile(p):
+                a.write(op[3], op[4], open(p, 'rb').read())
         elif k == 'append':
             if os.path.isfile(p):
                 a.write(op[1], op[2], open(p, 'rb').read() + self.rng.randbytes(op[3]))
